@@ -63,7 +63,7 @@ class LoopBody(X.SegmentVC):
     """One abstract iteration of the tokenizer loop for one rule shape (branch j of a 'named' rule)."""
     prop = PROP
     target = "jinja2.lexer:Lexer.tokeniter"
-    timeout_quick = 20000
+    timeout_quick = 40000
     clauses = ("lossless", "lineno")
 
     def __init__(self, family, shape, j=None, clauses=("lossless", "lineno"), prefix="C39.loop"):
@@ -463,7 +463,9 @@ def lex_oracle(env, src, removed_ok=None):
     return None
 
 
-def loop_tasks(clauses, prefix, cls=None):
+def loop_tasks(clauses, prefix, cls=None, by_position=True):
+    """by_position=False: one VC per (number of branches, variable tag or not) of the root rule instead of one per matched
+    branch position (for clauses that do not depend on which groups of the match are set)"""
     cls = cls or LoopBody
     ts = []
     seen = set()
@@ -472,7 +474,7 @@ def loop_tasks(clauses, prefix, cls=None):
             for j in range(len(sh.names)):
                 # the body only distinguishes the number of branches, the position of the matched one and whether it is the
                 # variable tag: one VC per such combination over the families
-                key = (len(sh.names), j, sh.names[j] == L.TOKEN_VARIABLE_BEGIN)
+                key = (len(sh.names), j if by_position else None, sh.names[j] == L.TOKEN_VARIABLE_BEGIN)
                 if key in seen:
                     continue
                 seen.add(key)
